@@ -213,7 +213,7 @@ def type_refs(t: dict, prog: dict):
 
 def class_edges(prog: dict, i: int):
     out = set()
-    for f in prog["classes"][i]["fields"]:
+    for f in _dir_fields(prog["classes"][i]):
         for kind, j in type_refs(f["t"], prog):
             if kind == "cls":
                 out.add(j)
@@ -240,11 +240,14 @@ def recursive_classes(prog: dict):
 
 
 def _dir_fields(cd: dict, direction=None):
+    """Fields followed from a class for an operation; serialized methods count as fields typed by their return
+    type for serialization (and when no direction is given)."""
+    methods = [{"n": m["n"], "t": m["ret"], "method": True} for m in cd.get("methods") or []]
     if direction == "serialization":
-        return M.ser_fields(cd)
+        return M.ser_fields(cd) + methods
     if direction == "deserialization":
         return M.des_fields(cd)
-    return cd["fields"]
+    return cd["fields"] + methods
 
 
 def reachable_named(prog: dict, t: dict, direction=None):
@@ -273,3 +276,25 @@ def named_occurrences(prog: dict, t: dict, direction=None):
                 seen.add(ref)
                 todo.extend(f["t"] for f in _dir_fields(prog["classes"][ref[1]], direction))
     return counts
+
+
+def schema_features(prog):
+    """Features of a program that known schema-generation findings depend on (aggregate fields reaching their own
+    class, nested flattened fields)."""
+    feats = {}
+    rec = recursive_classes(prog)
+    agg_rec = False
+    nested_flatten = False
+    for i, cd in enumerate(prog["classes"]):
+        for f in cd["fields"]:
+            if f.get("agg"):
+                refs = {j for k_, j in reachable_named(prog, f["t"]) if k_ == "cls"}
+                if refs & rec or i in refs:
+                    agg_rec = True
+                if f["agg"] == "flatten":
+                    sub = prog["classes"][M.strip(f["t"], prog)["i"]]
+                    if any(g_.get("agg") for g_ in sub["fields"]):
+                        nested_flatten = True
+    feats["recursive_aggregate"] = agg_rec
+    feats["nested_flatten"] = nested_flatten
+    return feats
